@@ -403,18 +403,22 @@ SeqsUpTo(S, n) == UNION { [1..k -> S] : k \in 1..n }
 \* S1: valid argument lists without optional metadata.  Core is a sub-cover of
 \* ArgOpt (every argument type, access, stencil family and space class once).
 \* quick: all single arguments and all pairs whose first member is in Core;
-\* thorough: all pairs and all triples over Core.
+\* thorough: all pairs and all triples over Core3 (a sub-cover of Core).
 Core == { Fld("real", "inc", "w1", 1, "none"), Fld("real", "read", "w2", 1, "none"),
           Fld("real", "readwrite", "w3", 1, "none"), Fld("real", "write", "wtheta", 3, "none"),
           Fld("integer", "read", "w3", 1, "none"),
           Fld("real", "read", "w2", 1, "xory1d"), Fld("real", "read", "w2", 1, "cross2d"),
           Fld("real", "read", "w1", 3, "region"),
           Op("read", "w0", "w1"), Op("readwrite", "w2", "w3"), Sc("real"), Sc("logical") }
+Core3 == { Fld("real", "inc", "w1", 1, "none"), Fld("real", "readwrite", "w3", 1, "none"),
+           Fld("real", "write", "wtheta", 3, "none"), Fld("real", "read", "w2", 1, "xory1d"),
+           Fld("real", "read", "w2", 1, "cross2d"), Fld("real", "read", "w1", 3, "region"),
+           Op("read", "w0", "w1"), Op("readwrite", "w2", "w3"), Sc("logical") }
 MaxLen(t) == IF t = "thorough" THEN 3 ELSE 2
 S1(t) == { Plain(a) : a \in SeqsUpTo(ArgOpt, 1) }
          \cup { Plain(a) : a \in { b \in [1..2 -> ArgOpt] :
                                      t = "thorough" \/ b[1] \in Core } }
-         \cup (IF t = "thorough" THEN { Plain(a) : a \in [1..3 -> Core] } ELSE {})
+         \cup (IF t = "thorough" THEN { Plain(a) : a \in [1..3 -> Core3] } ELSE {})
          \* every ordered pair of stencil types next to one written field
          \cup { Plain(<<Fld("real", "readwrite", "w3", 1, "none"),
                         Fld("real", "read", "w2", 1, p[1]), Fld("real", "read", "w2", 1, p[2])>>) :
@@ -449,7 +453,7 @@ TargetChoices(t, b, sh) ==
        \cup { tg \in { <<f, g>> : f \in SpacesOf(b), g \in SpacesOf(b) } :
                  /\ tg[1] # tg[2]
                  /\ t = "thorough" \/ tg[1] # UniqueSpaces(Plain(b))[1] }
-       \cup (IF t = "thorough" THEN { <<f>> : f \in SpacesOf(b) } ELSE {})
+       \cup (IF t = "thorough" /\ b = B1 THEN { <<f>> : f \in SpacesOf(b) } ELSE {})
   ELSE {<<>>}
 S2Q(t) ==
   UNION { UNION { { Md("cell_column", b, f, sh, tg, <<>>, <<>>) :
@@ -461,7 +465,7 @@ S2Q(t) ==
                    f \in { g \in Funcs2(b) : t = "thorough" \/
                             (g[1].ops \in FewOps /\ g[2].ops \in FewOps) } }
                : b \in Bases(t),
-                 sh \in (IF t = "thorough" THEN AllShapeSeqs ELSE FewShapes) }
+                 sh \in FewShapes }
 RefelSeqs == {<<>>} \cup { s \in SeqsUpTo(RefProps, 2) : Len(s) = 2 => s[1] # s[2] }
 MeshSeqs == { <<>>, <<"adjacent_face">> }
 QFew(b) == { <<<<>>, <<>>>>,
@@ -475,7 +479,7 @@ S2R(t) == UNION { { x \in { Md("cell_column", b, q[1], q[2], <<>>, r, m) :
 \* S3: kernels that operate on the domain
 DomainOpt == { a \in PlainFields : a.fs \in DiscSpaces } \cup Scalars
 S3(t) ==
-  { Md("domain", a, <<>>, <<>>, <<>>, <<>>, <<>>) : a \in SeqsUpTo(DomainOpt, MaxLen(t)) }
+  { Md("domain", a, <<>>, <<>>, <<>>, <<>>, <<>>) : a \in SeqsUpTo(DomainOpt, 2) }
   \cup { Md("domain", <<Fld("real", "readwrite", "w3", 1, "none")>>,
             <<[fs |-> "w3", ops |-> o]>>, sh, <<>>, r, <<>>) :
            o \in (IF t = "thorough" THEN OpsChoices ELSE {<<"basis">>}),
@@ -487,11 +491,12 @@ IgOpt == { FldM(acc, fs, v, m) :
              acc \in {"read", "readwrite"}, v \in {1, 3},
              fs \in {"any_discontinuous_space_1", "any_discontinuous_space_2"},
              m \in {"coarse", "fine"} }
-S4(t) == { Plain(a) : a \in SeqsUpTo({ o \in IgOpt : t = "thorough" \/ o.vec = 1 \/ o.acc = "read" },
-                                    MaxLen(t)) }
+S4(t) == { Plain(a) : a \in SeqsUpTo({ o \in IgOpt : t = "thorough" \/ o.vec = 1 \/ o.acc = "read" }, 2) }
+         \cup (IF t = "thorough"
+               THEN { Plain(a) : a \in [1..3 -> { o \in IgOpt : o.vec = 1 }] } ELSE {})
 
 \* S5: CMA kernels (assembly, application, matrix-matrix)
-CmaSpaces(t) == IF t = "thorough" THEN {<<"w0", "w3">>, <<"w3", "w3">>, <<"w3", "w0">>, <<"w0", "w0">>}
+CmaSpaces(t) == IF t = "thorough" THEN {<<"w0", "w3">>, <<"w3", "w3">>, <<"w3", "w0">>}
                 ELSE {<<"w0", "w3">>, <<"w3", "w3">>}
 CmaOpt(t) ==
   { Cma(acc, p[1], p[2]) : acc \in {"read", "write"}, p \in CmaSpaces(t) }
@@ -525,10 +530,108 @@ MdSetOf(t) ==
   IF t = "smoke" THEN Smoke
   ELSE { m \in S1(t) \cup S2Q(t) \cup S2R(t) \cup S3(t) \cup S4(t) \cup S5(t) : ValidMd(m) }
 
+\* =========================================================================
+\* MULTI-KERNEL INVOKES: one actual argument (CMA operator, LMA operator,
+\* field, field vector, stencil field, quadrature object) is passed to two or
+\* three kernels of one invoke whose metadata for it differ.  The property is
+\* per call: the argument list of every call must be Args(metadata of THAT
+\* kernel).  A record [ks, act, qsh]: ks = the kernels' metadata in call order,
+\* act[k][i] = identity of the actual passed as argument i of kernel k (equal
+\* numbers = the same algorithm-layer variable), qsh = the kernels share one
+\* quadrature object per shape.
+V(m, sh) == [md |-> m, sh |-> sh]           \* sh = position of the shared argument
+MultiOf(vs, qsh) ==
+  [ks  |-> [k \in DOMAIN vs |-> vs[k].md],
+   act |-> [k \in DOMAIN vs |->
+              [i \in DOMAIN vs[k].md.args |-> IF i = vs[k].sh THEN 1 ELSE 10 * k + i]],
+   qsh |-> qsh]
+OrdPairs(G)   == { <<a, b>> : a \in G, b \in G } \ { <<a, a>> : a \in G }
+OrdTriples(G) == { t \in [1..3 -> G] : t[1] # t[2] /\ t[1] # t[3] /\ t[2] # t[3] }
+
+\* a column-wise operator: square / non-square, assembled / applied / combined
+CmaVars ==
+  { V(Plain(<<Op("read", "w0", "w3"), Cma("write", "w0", "w3")>>), 2),
+    V(Plain(<<Op("read", "w3", "w3"), Cma("write", "w3", "w3")>>), 2),
+    V(Plain(<<Fld("real", "inc", "w0", 1, "none"), Fld("real", "read", "w3", 1, "none"),
+              Cma("read", "w0", "w3")>>), 3),
+    V(Plain(<<Fld("real", "readwrite", "w3", 1, "none"), Fld("real", "read", "w3", 1, "none"),
+              Cma("read", "w3", "w3")>>), 3),
+    V(Plain(<<Cma("write", "w0", "w3"), Cma("read", "w0", "w3"), Sc("real")>>), 2),
+    V(Plain(<<Cma("write", "w3", "w3"), Cma("read", "w3", "w3")>>), 2),
+    \* the metadata of the repository's columnwise_op_asm_field_kernel and
+    \* columnwise_op_app_same_fs_kernel
+    V(Plain(<<Fld("real", "read", "any_space_1", 1, "none"),
+              Op("read", "any_space_1", "any_space_2"),
+              Cma("write", "any_space_1", "any_space_2")>>), 3),
+    V(Plain(<<Fld("real", "inc", "any_space_2", 1, "none"),
+              Fld("real", "read", "any_space_2", 1, "none"),
+              Cma("read", "any_space_2", "any_space_2")>>), 3) }
+LmaVars ==
+  { V(Plain(<<Op("write", "w0", "w1"), Fld("real", "read", "w0", 1, "none")>>), 1),
+    V(Plain(<<Fld("real", "inc", "w1", 1, "none"), Op("read", "w0", "w1")>>), 2),
+    V(Plain(<<Fld("real", "inc", "any_space_1", 1, "none"),
+              Op("read", "any_space_1", "any_space_2")>>), 2),
+    V(Plain(<<Op("readwrite", "w1", "w1"), Sc("real")>>), 1) }
+FldVars ==
+  { V(Plain(<<Fld("real", "inc", "w1", 1, "none"), Fld("real", "read", "w2", 1, "none")>>), 1),
+    V(Plain(<<Fld("real", "readwrite", "w3", 1, "none"), Fld("real", "read", "w1", 1, "cross")>>), 2),
+    V(Plain(<<Fld("real", "readwrite", "w3", 1, "none"), Fld("real", "read", "w1", 1, "xory1d")>>), 2),
+    V(Plain(<<Fld("real", "readwrite", "w3", 1, "none"), Fld("real", "read", "w1", 1, "cross2d")>>), 2),
+    V(Plain(<<Fld("real", "inc", "any_space_1", 1, "none"), Fld("real", "read", "w2", 1, "none")>>), 1),
+    V(Md("cell_column", <<Fld("real", "read", "w1", 1, "none"), Fld("real", "inc", "w2", 1, "none")>>,
+         <<[fs |-> "w1", ops |-> <<"basis">>]>>, <<"xyoz">>, <<>>, <<>>, <<>>), 1),
+    V(Md("cell_column", <<Fld("real", "readinc", "w1", 1, "none"), Fld("real", "read", "w2", 1, "none")>>,
+         <<[fs |-> "w1", ops |-> <<"diff">>], [fs |-> "w2", ops |-> <<"basis">>]>>,
+         <<"evaluator">>, <<>>, <<>>, <<>>), 1) }
+VecVars ==
+  { V(Plain(<<Fld("real", "inc", "w1", 3, "none")>>), 1),
+    V(Plain(<<Fld("real", "readwrite", "w3", 1, "none"), Fld("real", "read", "w1", 3, "region")>>), 2),
+    V(Plain(<<Fld("real", "readwrite", "w3", 1, "none"),
+              Fld("real", "read", "any_space_1", 3, "none"), Sc("integer")>>), 2) }
+\* kernels that share their quadrature objects (no shared data argument)
+QrVars ==
+  { V(Md("cell_column", B1, <<[fs |-> "w1", ops |-> <<"basis">>]>>, <<"xyoz">>, <<>>, <<>>, <<>>), 0),
+    V(Md("cell_column", B1, <<[fs |-> "w2", ops |-> <<"diff">>]>>, <<"xyoz", "face">>, <<>>, <<>>, <<>>), 0),
+    V(Md("cell_column", B1, <<[fs |-> "w1", ops |-> <<"diff", "basis">>]>>, <<"face">>, <<>>, <<>>, <<>>), 0) }
+
+MultiSmoke ==
+  { MultiOf(<<V(Plain(<<Fld("real", "read", "any_space_1", 1, "none"),
+                         Op("read", "any_space_1", "any_space_2"),
+                         Cma("write", "any_space_1", "any_space_2")>>), 3),
+              V(Plain(<<Fld("real", "inc", "any_space_2", 1, "none"),
+                        Fld("real", "read", "any_space_2", 1, "none"),
+                        Cma("read", "any_space_2", "any_space_2")>>), 3)>>, FALSE) }
+MultiSetOf(t) ==
+  IF t = "smoke" THEN MultiSmoke
+  ELSE { MultiOf(p, FALSE) : p \in OrdPairs(CmaVars) \cup OrdPairs(LmaVars)
+                                   \cup OrdPairs(FldVars) \cup OrdPairs(VecVars) }
+       \cup { MultiOf(p, TRUE) : p \in OrdPairs(QrVars) }
+       \cup { MultiOf(p, FALSE) :
+                p \in (IF t = "thorough"
+                       THEN OrdTriples({ v \in CmaVars : v.md.args[v.sh].fs \in {"w0", "w3"} })
+                            \cup OrdTriples(LmaVars) \cup OrdTriples(VecVars)
+                       ELSE { q \in OrdTriples(CmaVars) :
+                                q[1].md.args[q[1].sh].fs = "w0" /\ q[1].md.args[q[1].sh].acc = "write"
+                                /\ q[2].md.args[q[2].sh].fs = "w3" /\ q[3].md.args[q[3].sh].fs = "w0" }) }
+       \cup { MultiOf(p, TRUE) : p \in OrdTriples(QrVars) }
+
+IsMulti(m) == "ks" \in DOMAIN m
+\* the same actual has one algorithm-layer type; it is passed once per kernel
+MultiValid(m) ==
+  /\ \A k \in DOMAIN m.ks : ValidMd(m.ks[k])
+  /\ \A k, l \in DOMAIN m.ks : \A i \in DOMAIN m.act[k] : \A j \in DOMAIN m.act[l] :
+       m.act[k][i] = m.act[l][j] =>
+         /\ (k = l => i = j)
+         /\ m.ks[k].args[i].t = m.ks[l].args[j].t
+         /\ m.ks[k].args[i].dt = m.ks[l].args[j].dt
+         /\ m.ks[k].args[i].vec = m.ks[l].args[j].vec
+
 \* ------------------------------------------------ enumeration as a TLC model
 VARIABLE md
-Init == /\ md \in MdSetOf(Tier)
-        /\ PrintT("MD " \o ToJson(md))
+Init == \/ /\ md \in MdSetOf(Tier)
+           /\ PrintT("MD " \o ToJson(md))
+        \/ /\ md \in MultiSetOf(Tier)
+           /\ PrintT("MK " \o ToJson(md))
 Next == UNCHANGED md
 Spec == Init /\ [][Next]_md
 
@@ -536,14 +639,16 @@ Spec == Init /\ [][Next]_md
 ItemOK(it) == /\ it.ty \in {"integer", "real", "logical", "any"}
               /\ it.r \in {"0", "1", "2", "3", "4"}
               /\ it.in \in {"in", "inout", "any"}
-ArgsWellFormed ==
-  LET A == Args(md) IN
+WellFormed(m) ==
+  LET A == Args(m) IN
   /\ \A p \in DOMAIN A : ItemOK(A[p])
   \* every metadata argument is represented, in metadata order
-  /\ \A i \in DOMAIN md.args : \E p \in DOMAIN A : A[p].a = Str(i)
-  /\ \A i, j \in DOMAIN md.args : i < j =>
+  /\ \A i \in DOMAIN m.args : \E p \in DOMAIN A : A[p].a = Str(i)
+  /\ \A i, j \in DOMAIN m.args : i < j =>
        \A p, q \in DOMAIN A : (A[p].a = Str(i) /\ A[q].a = Str(j)) => p < q
   \* the order of the reference-element counts never changes the length
-  /\ md.refel # <<>> => \A o \in CountOrders : Len(ArgsWith(md, o)) = Len(A)
-GeneratedValid == ValidMd(md)
+  /\ m.refel # <<>> => \A o \in CountOrders : Len(ArgsWith(m, o)) = Len(A)
+ArgsWellFormed == IF IsMulti(md) THEN \A k \in DOMAIN md.ks : WellFormed(md.ks[k])
+                  ELSE WellFormed(md)
+GeneratedValid == IF IsMulti(md) THEN MultiValid(md) ELSE ValidMd(md)
 ===============================================================================
